@@ -64,6 +64,8 @@ pub struct Script {
     pub written: Vec<u8>,
     /// every write call: (bytes accepted so far, bytes offered by this call)
     pub offers: Vec<(usize, usize)>,
+    /// the write half was shut down (tokio poll_shutdown): further writes fail like on a real socket
+    pub shut: bool,
     pub min_offered: usize,
     pub max_offered: usize,
     /// a waker parked by a Stall step (never woken by the transport)
@@ -166,6 +168,10 @@ impl Script {
 
     fn do_write(&mut self, buf: &[u8], blocking: bool) -> Result<Poll<usize>, io::ErrorKind> {
         self.offers.push((self.written.len(), buf.len()));
+        if self.shut {
+            self.trace.push(Event::WriteErr(io::ErrorKind::BrokenPipe));
+            return Err(io::ErrorKind::BrokenPipe);
+        }
         loop {
             match self.writes.pop_front() {
                 None => {
@@ -269,6 +275,7 @@ impl AsyncWrite for Transport {
         Poll::Ready(Ok(()))
     }
     fn poll_shutdown(self: Pin<&mut Self>, _cx: &mut Context<'_>) -> Poll<io::Result<()>> {
+        self.0.lock().unwrap().shut = true;
         Poll::Ready(Ok(()))
     }
 }
